@@ -316,7 +316,18 @@ def gen_btcdeb_noninteractive(rng):
     return scn
 
 
+VALGRIND_EVERY = {"quick": 1500, "thorough": 150}
+
+
 def gen(rng, tier, idx):
+    scn = _gen(rng, tier, idx)
+    if idx % VALGRIND_EVERY.get(tier, 1500) == 7:
+        # a sample of the plans is repeated under valgrind memcheck (optimised build) for uninitialised reads
+        scn["valgrind"] = True
+    return scn
+
+
+def _gen(rng, tier, idx):
     if idx < len(ENUM):
         return enum_scenario(idx)
     k = rng.weighted([(66, "interactive"), (12, "noninteractive"), (12, "tap"), (10, "btcc")])
@@ -509,7 +520,19 @@ def evaluate(ctx, scn):
     ev.nontrivial = nlines >= 3 or bool(fired)
     kinds = tuple((s.line or "").split(" ")[0][:12] for s in run.segs[1:])
     ev.cov = [(scn.get("tool", "btcdeb"), kinds, tuple(sorted(set(fired))), run.classify()[0])]
-    if "plain" in ctx.builds and scn.get("tool", "btcdeb") != "none":
+    if scn.get("valgrind"):
+        rv = ctx.run(w, flavour="valgrind")
+        ev.hashes.append(rv.hash())
+        ev.counters["valgrind_runs"] += 1
+        if rv.wait == ("exited", 76) or ("== " in rv.valgrind and ("Invalid " in rv.valgrind or "uninitialised" in rv.valgrind or "Mismatched" in rv.valgrind)):
+            site = proto.valgrind_site(rv.valgrind)
+            ev.add(PROP, "valgrind-memcheck", "%s:%s" % (scn.get("tool", "btcdeb"), site), "%s under valgrind (-O2 build): %s after `%s`" % (scn.get("tool", "btcdeb"), site, last_command(rv)))
+        else:
+            ev2 = Eval()
+            judge(ev2, rv, scn, "valgrind")
+            for v in ev2.violations:
+                ev.add(v.prop, v.clause, "valgrind:" + v.site, "[valgrind, -O2 build] " + v.message)
+    if "plain" in ctx.builds and scn.get("tool", "btcdeb") != "none" and not scn.get("valgrind"):
         # thorough tier: the same plan in the optimised build; a divergence is a lead, only a crash is a violation
         r2 = ctx.run(w, flavour="plain")
         ev.hashes.append(r2.hash())
